@@ -303,7 +303,7 @@ func (bw *batchWorld) submit(c *Ctx, sender int, nonce uint64, b []bodyStep, to 
 
 func genC04(c *Ctx) error {
 	c.ShardSize = 40
-	c.Notes["rule"] = "each case: a fresh chaincode with some data keys and nonce windows left by earlier batches; 0-8 scripted transactions (put/delete/read/event steps over 4 keys, 25% failing after having written, 7% panicking) submitted by 3 senders that also name each other as address arguments, then ONE batchExecute listing them in random order with duplicates and unknown ids - or the same requests as ONE executeTasks list. Observed: the reply per listed id (error class or reported writes/events) and the projection of the whole ledger (data, pending and nonce keys). Plus batches of 1-5 library operations that announce something in the reply (swapBegin / multiSwapBegin: funded and not, foreign token, own channel; next to transfers): the created swaps and multi-swaps of the reply against the per-transaction verdicts. Non-trivial: at least two items of which one succeeds and one does not."
+	c.Notes["rule"] = "each case: a fresh chaincode with some data keys and nonce windows left by earlier batches; 0-8 scripted transactions (put/delete/read/event steps over 4 keys, 25% failing after having written, 7% panicking) submitted by 3 senders that also name each other as address arguments, then ONE batchExecute listing them in random order with duplicates and unknown ids - or the same requests as ONE executeTasks list. Observed: the reply per listed id (error class or reported writes/events) and the projection of the whole ledger (data, pending and nonce keys). Plus batches and task lists of scripted transactions that report accounting records, several of them equal, against the records the event lists per transaction. Plus batches of 1-5 library operations that announce something in the reply (swapBegin / multiSwapBegin: funded and not, foreign token, own channel; next to transfers): the created swaps and multi-swaps of the reply against the per-transaction verdicts. Non-trivial: at least two items of which one succeeds and one does not."
 	n := c.N(300, 6000)
 	for i := 0; i < n; i++ {
 		if err := c04Case(c, i%2 == 0); err != nil {
@@ -315,6 +315,81 @@ func genC04(c *Ctx) error {
 			return err
 		}
 	}
+	for i := c.N(40, 800); i > 0; i-- {
+		if err := c04Account(c, i%2 == 0); err != nil {
+			return err
+		}
+	}
+	return nil
+}
+
+// c04Account: one batch (or task list) of 1-4 scripted transactions whose bodies report accounting records, several of
+// them equal to one another, some bodies failing afterwards; the accounting records of the event per transaction.
+func c04Account(c *Ctx, batchRoute bool) error {
+	rng := c.Rng
+	w := NewWorld()
+	if _, err := w.AddToken("TT", ChanOpts{}); err != nil {
+		return err
+	}
+	u := w.NewAccount(fpb.KeyType_ed25519)
+	nonce := uint64(1700000000000)
+	type item struct {
+		amts []string
+		fail bool
+		args []string
+		id   string
+	}
+	var items []item
+	for k := 1 + rng.Intn(4); k > 0; k-- {
+		it := item{fail: rng.Intn(4) == 0}
+		var steps []string
+		for j := rng.Intn(5); j > 0; j-- {
+			a := []string{"5", "5", "5", "3", "10", "0"}[rng.Intn(6)]
+			it.amts = append(it.amts, a)
+			steps = append(steps, "acct,"+a)
+			if rng.Intn(3) == 0 {
+				steps = append(steps, fmt.Sprintf("put,d%d,x", rng.Intn(4)))
+			}
+		}
+		if it.fail {
+			steps = append(steps, "fail")
+		}
+		nonce++
+		it.args = w.SignedArgs("tt", "script", u, strconv.FormatUint(nonce, 10), strings.Join(steps, ";"))
+		items = append(items, it)
+	}
+	var out *BatchOut
+	if batchRoute {
+		var ids []string
+		for i := range items {
+			res := w.Submit("tt", "script", items[i].args)
+			if !res.OK() {
+				return fmt.Errorf("c04Account: submission refused: %s", res.Message)
+			}
+			ids = append(ids, res.TxID)
+		}
+		out = w.ExecBatchIDs("tt", ids...)
+	} else {
+		var tasks []*fpb.Task
+		for i := range items {
+			tasks = append(tasks, &fpb.Task{Id: w.Peer.NextTxID(), Method: "script", Args: items[i].args})
+		}
+		out = w.ExecTasks("tt", w.Robot.Creator, tasks)
+	}
+	if out.Resp == nil || out.Event == nil || len(out.Resp.GetTxResponses()) != len(items) || len(out.Event.GetEvents()) != len(items) {
+		return fmt.Errorf("c04Account: request failed as a whole: %s", out.Res.Message)
+	}
+	var listed []string
+	for i, it := range items {
+		ok := out.Resp.GetTxResponses()[i].GetError().GetError() == ""
+		var rep []string
+		for _, a := range out.Event.GetEvents()[i].GetAccounting() {
+			rep = append(rep, new(big.Int).SetBytes(a.GetAmount()).String())
+		}
+		listed = append(listed, fmt.Sprintf("(%s, %s, %s)", coqBool(ok), coqList(it.amts), coqList(rep)))
+		c.Count(fmt.Sprintf("accounting_tx_ok_%v", ok))
+	}
+	c.Emit("CAccount "+coqList(listed), map[string]interface{}{"accounting_batch_route": batchRoute, "listed": listed}, len(items) > 1)
 	return nil
 }
 
